@@ -168,6 +168,43 @@ def flags_from_dict(kw):
     return flags
 
 
+def _split_event_args(line):
+    """
+    Split an event line into its space-separated arguments like
+    ``line.split()``, except that a QuotedString (as in
+    ``SOCKS_USERNAME="mail client"``) stays in one piece, quotes and
+    escapes exactly as Tor sent them: what is inside the quotes is a
+    value, never further arguments or keywords.
+    """
+    if '"' not in line:
+        return line.split()
+    args = []
+    current = ''
+    quoted = False
+    escaped = False
+    for ch in line:
+        if quoted:
+            current += ch
+            if escaped:
+                escaped = False
+            elif ch == '\\':
+                escaped = True
+            elif ch == '"':
+                quoted = False
+        elif ch.isspace():
+            if current:
+                args.append(current)
+                current = ''
+        else:
+            current += ch
+            if ch == '"':
+                quoted = True
+    # (an unbalanced quote takes the rest of the line as its value)
+    if current:
+        args.append(current)
+    return args
+
+
 @implementer(ICircuitListener)
 @implementer(ICircuitContainer)
 @implementer(IRouterContainer)
@@ -908,7 +945,7 @@ class TorState(object):
             # this happens if there are no active streams
             return
 
-        args = line.split()
+        args = _split_event_args(line)
         assert len(args) >= 3
 
         stream_id = int(args[0])
